@@ -122,6 +122,27 @@ def tyGet (ty : TyMap) (v : Node) : Option VT := (ty.lookup v).join
 /-- insertion into a python dict / set used as an ordered collection of keys: an existing key keeps its place -/
 def Py.addNew {α} [DecidableEq α] (l : List α) (x : α) : List α := if x ∈ l then l else l ++ [x]
 
+/-- the python builtin `sorted(xs, key=str)` (`key` = `str` of an element): a STABLE sort, spelled as the insertion
+    sort it is equivalent to — an element goes behind the elements that came before it unless its key is strictly
+    smaller. Strings compare by code point in Python as in Lean. It is `C09.sortStr` (`sortedByStr_eq`). -/
+def Py.sortedByStr (key : Node → String) : List Node → List Node
+  | [] => []
+  | x :: xs => ins x (Py.sortedByStr key xs)
+where
+  ins (x : Node) : List Node → List Node
+    | [] => [x]
+    | y :: ys => if key y < key x then y :: ins x ys else x :: y :: ys
+
+theorem Py.sortedByStr_eq (key : Node → String) (l : List Node) : Py.sortedByStr key l = sortStr key l := by
+  induction l with
+  | nil => rfl
+  | cons x xs ih =>
+    simp only [Py.sortedByStr, sortStr, ih]
+    generalize sortStr key xs = ys
+    induction ys with
+    | nil => rfl
+    | cons y ys ih2 => simp only [Py.sortedByStr.ins, insertStr, ih2]
+
 /-- `len(set(xs))` -/
 def Py.distinctCount {α} [DecidableEq α] (xs : List α) : Nat := (xs.foldl Py.addNew []).length
 
@@ -140,7 +161,7 @@ structure BuildView where
   variables : List Node
   /-- `equation.atoms(Variable)` (sympy) -/
   atoms : Eqn → List Node
-  /-- `self.find_variables_and_derivatives([equation.rhs])`, in set-iteration order -/
+  /-- `self.find_variables_and_derivatives([equation.rhs])`, in set-iteration order (the code sorts it: `Py.sortedByStr`) -/
   refsOf : Eqn → List Node
   /-- `lhs.is_Derivative` -/
   isDerivative : Node → Bool
